@@ -202,6 +202,12 @@ func (g *Gun) shoot(ammo *ammo.Ammo) {
 		g.Aggr.Report(sample)
 	}()
 
+	if ammo.IsInvalid() {
+		// the provider could not decode this entry (ContinueOnError): failed sample, no call
+		g.GunDeps.Log.Error("invalid ammo", zap.Uint64("request", ammo.ID()))
+		return
+	}
+
 	method, ok := g.Services[ammo.Call]
 	if !ok {
 		g.GunDeps.Log.Error("invalid ammo.Call", zap.String("method", ammo.Call),
